@@ -5,6 +5,7 @@ package interp
 import (
 	"fmt"
 	"go/types"
+	"strings"
 
 	"golang.org/x/tools/go/ssa"
 )
@@ -141,6 +142,24 @@ func (i *interpreter) global(g *ssa.Global) *value {
 	p := &cell
 	i.globals[g] = p
 	return p
+}
+
+// inTargetCode reports whether fr executes a function of the library under
+// test (not the harness, the support package or the standard library).
+func (i *interpreter) inTargetCode(fr *frame) bool {
+	fn := fr.fn
+	for fn.Parent() != nil {
+		fn = fn.Parent()
+	}
+	if fn.Pkg == nil || !strings.HasPrefix(fn.Pkg.Pkg.Path(), genqlPath) || strings.HasSuffix(fn.Pkg.Pkg.Path(), "/zz_verif") {
+		return false
+	}
+	name := fn.Name()
+	if strings.HasPrefix(name, "H_") {
+		return false
+	}
+	file := i.prog.Fset.Position(fn.Pos()).Filename
+	return !strings.Contains(file, "zz_verif")
 }
 
 func (i *interpreter) mapOrderAt(fr *frame) bool {
